@@ -273,14 +273,21 @@ def call_kwargs(case, bound):
     return kw
 
 
-def _raise_tag(case):
-    """Stable context tag so that different unexpected rejections are reported as different failures."""
-    if case['path']['kind'] in ('array', 'list') and case['sm']:
+def _raise_tag(case, exc):
+    """Stable context tag so that different unexpected rejections are reported as different failures:
+    the argument the exception message names, else the feature combination of the case."""
+    msg = str(exc)
+    if isinstance(exc, ValueError):
+        if 'bp_profile' in msg:
+            return 'bp_array_with_integrate_f' if case['fi'] else 'bp_array'
+        if 'path' in msg:
+            return 'path_array_with_smearing' if case['sm'] else 'path_array'
+        if 't_profile' in msg:
+            return 't_profile_array'
+    if case['path']['kind'] in ('array', 'list') and case['sm'] and not case['path'].get('ints'):
         return 'path_array_with_smearing'
-    if case['path']['kind'] == 'int' and case['sm']:
+    if (case['path']['kind'] == 'int' or case['path'].get('ints')) and case['sm']:
         return 'int_path_with_smearing'
-    if case['bp']['kind'] in ('array', 'list') and case['fi']:
-        return 'bp_array_with_integrate_f'
     if case.get('bound', 'none') != 'none' and case['fi']:
         return 'bounding_with_integrate_f'
     return 'other'
@@ -320,7 +327,7 @@ def case_signal(case):
     except Exception as e:
         if not axes_intact(g):
             V('axes_changed', 'frame axes / scalars changed by a rejected add_signal call')
-        V('raised_%s/%s' % (type(e).__name__, _raise_tag(case)),
+        V('raised_%s/%s' % (type(e).__name__, _raise_tag(case, e)),
           'valid arguments rejected: %s: %s | path=%s t=%s f=%s bp=%s kwargs=%s'
           % (type(e).__name__, str(e)[:200], ps, tsp, fsp, bsp, kw))
         return {'viol': viol, 'outcomes': ['raised/%s' % type(e).__name__]}
